@@ -494,6 +494,10 @@ def r48(ctx, sn, result=None, KEY=None):
                     seen['ep-capture'] = True
                 elif ok:
                     seen['ep-capture'] = True
+                elif any(('en_passant' in t_) and ('closure' in t_ or 'map_or' in t_ or 'is_some_and' in t_) for c in conds for (t_, _tv) in c.get('other', [])):
+                    # `self.en_passant.map_or(false, |ep| ep == dest.ubackward(us))`: the comparison lives in a closure
+                    seen['ep-capture'] = True
+                    ctx.inconclusive('C02.R8', 'the en-passant capture is recognised through a closure on the en-passant slot (map_or / is_some_and): not analysed')
                 else:
                     problems.append(('C02.R8', 'ep-capture-guard', 'the en-passant capture toggle is not guarded by (pawn, no promotion, not a double '
                                      'push, Some(dest.ubackward) == en_passant): %s' % [sorted((str(k), v) for k, v in c.items() if k != 'castles-expr') for c in conds][:1], line))
